@@ -34,6 +34,18 @@ class SignallingCondition(threading.Condition):
             gate["go"].wait(gate.get("max", 20.0))
         return super().__enter__()
 
+    # the mirror image: a thread other than the designated waiter that has just *released* the lock is held right there
+    # (before whatever it does next) until the harness lets it go
+    exit_gate = None
+
+    def __exit__(self, *exc):
+        res = super().__exit__(*exc)
+        gate = self.exit_gate
+        if gate is not None and threading.get_ident() != gate.get("waiter") and not gate["go"].is_set():
+            gate["left"].set()
+            gate["go"].wait(gate.get("max", 20.0))
+        return res
+
     def wait(self, timeout=None):
         self.waits += 1
         self.waiting.set()
